@@ -25,7 +25,8 @@ Definition enc_split (r : serr + list string) : data :=
   end.
 
 (* cases:  (argv (t1 t2 ...))  ->  (M-result  S-lists  quote_join(argv)  split(quote_join(argv))  safe(argv))
-           (split s)           ->  split(s)                                                        *)
+           (split s)           ->  split(s)
+           (db ((t...) (t...) ...)) -> ((M-result S-lists) ...)   one pair per entry                                                        *)
 Definition run_C11 (d : data) : data :=
   match d with
   | DList [DStr "argv"; l] =>
@@ -37,5 +38,11 @@ Definition run_C11 (d : data) : data :=
       | None => bad_case
       end
   | DList [DStr "split"; DStr s] => enc_split (split_string s)
+  | DList [DStr "db"; DList entries] =>
+      (* a database: every entry is parsed on its own (the property is per command) *)
+      match opt_map (as_list_of as_str) entries with
+      | Some argvs => DList (map (fun argv => DList [enc_result (parse_args argv); enc_lists (scan_S argv)]) argvs)
+      | None => bad_case
+      end
   | _ => bad_case
   end.
